@@ -507,6 +507,7 @@ func (e *env) toolPath() {
 		{"structured-false", resultS(nil, base, some(false), false)},
 		{"structured-big-int", resultS(nil, base, some(map[string]any{"n": int64(9007199254740992), "m": -9007199254740991}), false)},
 		{"structured-only", resultS(nil, nil, some(map[string]any{"a": 1}), false)},
+		{"structured-with-empty-content", resultS(map[string]any{"m": 1}, []any{}, some(map[string]any{"a": 1, "b": []any{}}), true)},
 		{"many-items", resultS(nil, list(textC("a", nil), imageC("aGk=", "image/png", nil), textC("b\nc", nil), imageC("eA==", "image/jpeg", nil), textC("d", nil)), nil, true)},
 		{"new-text-result", viewResult(mcp.NewTextResult("from NewTextResult"))},
 		{"new-error-result", viewResult(mcp.NewErrorResult("from NewErrorResult"))},
